@@ -1110,6 +1110,7 @@ func Initialize(directory string) *CodeGraph {
 		parser.SetLanguage(java.GetLanguage())
 
 		for file := range fileChan {
+			verifBeforeFile(file)
 			fileName := filepath.Base(file)
 			statusChan <- fmt.Sprintf("\033[32mWorker %d ....... Reading and parsing code %s\033[0m", workerID, fileName)
 			sourceCode, err := readFile(file)
@@ -1186,6 +1187,7 @@ func Initialize(directory string) *CodeGraph {
 
 	// Collect results
 	for localGraph := range resultChan {
+		verifOnMerge(localGraph)
 		for _, node := range localGraph.Nodes {
 			codeGraph.AddNode(node)
 		}
